@@ -313,3 +313,45 @@ def check_C17(res, replay):
                     "random call sequences (2-12 calls) of set_coordinates (different coordinate sets, 15% wrong lengths) / generate_connectivty / set_bond_orders (plausible "
                     "matrices, wrong sizes, unsupported values) / build_3d (guard) / optimise over library and random molecules, the full state compared with the model after "
                     "every call; plus scripted-vs-file construction of each molecule (connectivity, coordinate bits, UFF energy)", extra_audit=BUILD_AUDIT + ["OptRs.Model.Wrapper"])
+
+
+# ---------------------------------------------------------------------------------------------------- C15
+
+def check_C15(res, replay):
+    res.trusted = TB_COMMON + ["hand model OptRs.Model.Cli of cli::run + the clap definition + the .xyz suffix check", "the operating system's process and file-system behaviour (observed, not modelled)",
+                               "axioms audited: subset of {propext, Classical.choice, Quot.sound}"]
+    res.assumptions = ["PARTIAL: decision logic and composition are proved on the model; exit status, working-directory effects and clap's parsing are OBSERVED by running the real binary "
+                       "(built from /repo's working tree) in fresh directories, not proved",
+                       "coordinates in opt.xyz are compared with the in-process Molecule::optimise under the selected force field to the written precision (1e-6 A); the reading back of opt.xyz is C13/C14"]
+    L.run_translators(["tables"], res)
+    L.prove(["OptRs.Props.C15"], res, ["OptRs.Model.Cli"])
+    L.build_cli(res)
+    if L.build_harness(res) and L.build_model(res):
+        lines = harness_lines("cli", [], res)
+        if lines is not None:
+            L.compare_lines(lines, "cli", res, "cli")
+    return L.finish(res, "proof", "lake build OptRs.Props.C15 + #print axioms audit",
+                    "valid input files (library and random molecules, distorted) x option spellings (absent, -f UFF, --forcefield RB, --forcefield=RB, -fRB, option before the file, "
+                    "wrong case, unknown and empty names, missing value, two positionals, no arguments) x inputs without the .xyz suffix or missing, in fresh working directories half "
+                    "of which already hold an opt.xyz; observed: exit status, presence/bytes of opt.xyz, atoms, finiteness, agreement with the library optimiser, energy not higher")
+
+
+# ---------------------------------------------------------------------------------------------------- C19
+
+def check_C19(res, replay):
+    res.trusted = TB_COMMON + ["hand model OptRs.Model.build3d of Molecule::build_3d (coordinates opaque)", "axioms audited: subset of {propext, Classical.choice, Quot.sound}"]
+    res.assumptions = ["PARTIAL: the structural half (bonds with orders, atoms and derived connectivity preserved for every enumeration and every optimiser outcome; budgets 20/500) is proved; "
+                       "the geometric half (bond lengths within 25 % of the radii sum, no pair closer than 0.3 A, finite coordinates) is the outcome of a floating-point descent from "
+                       "random starts (thread_rng, not seedable) and is explored on real builds, not proved",
+                       "optimisations only write coordinates (C04 frame theorem)"]
+    L.run_translators(["tables"], res)
+    L.prove(["OptRs.Props.C19", "OptRs.Props.C05"], res, ["OptRs.Model.Wrapper", "OptRs.Lemmas.Sets", "OptRs.Model.SD"])
+    if L.build_harness(res) and L.build_model(res):
+        lines = harness_lines("build3d", [], res)
+        if lines is not None:
+            L.compare_lines(lines, "b3d", res, "build3d")
+        res.cases += int(res.stats.get("build3d.builds", "0"))
+    return L.finish(res, "proof", "lake build OptRs.Props.C19 OptRs.Props.C05 + #print axioms audit",
+                    "bond tables of real molecules (library incl. rings, aromatic, triple bonds, metal complexes; alkanes to C8; generated molecules up to 36 atoms) built through the wrapper "
+                    "(set_bond_orders then build_3d) 2 (quick) / 6 (thorough) times each with the builder's own random placements: bonds/atoms/derived connectivity before vs after and against "
+                    "the model; bond-length deviation, smallest distance and finiteness of every result")
